@@ -448,4 +448,4 @@ def run_restart(ctx):
         "goroutine scheduling of the real run is observed (snapshot order), not enumerated",
     ]
     if ctx.thorough:
-        ctx.coqchk(["LV.Arb.RestartProps"])
+        ctx.coqchk(["LV.Arb.RestartProps", "LV.Arb.NurseryProps"])
